@@ -6,6 +6,7 @@
 import GraphiqModel.Model.GraphOps
 import GraphiqModel.Model.LC
 import Driver.Proto
+import Driver.CmdStab
 namespace Graphiq.CmdGraph
 open Graphiq Graphiq.Proto Graphiq.LC
 
@@ -302,6 +303,18 @@ def cmdApply (a : Args) : String :=
   | .ok t => s!"ok same={b01 (isGraphState t h.f)} valid={b01 t.isSymplectic}"
   | .error e => errStr e
 
+/-- `lc_check(state1, state2, validate)` on two stabilizer tableaux (`a…`, `b…`), repaired `is_lc_equivalent` -/
+def cmdCheckStates (a : Args) : String :=
+  match lcCheckStates (CmdStab.stabOf a "a") (CmdStab.stabOf a "b") (get a "validate" ≠ "0") with
+  | .ok (yes, gates) => s!"ok yes={b01 yes} gates={CmdStab.showCirc gates}"
+  | .error e => errStr e
+
+/-- `lc_check(state1, graph2, validate)`: a stabilizer tableau (`a…`) and a graph (`n`, `b`) -/
+def cmdCheckStateGraph (a : Args) : String :=
+  match lcCheckStateGraph (CmdStab.stabOf a "a") (graphOf a "b") (get a "validate" ≠ "0") with
+  | .ok (yes, gates) => s!"ok yes={b01 yes} gates={CmdStab.showCirc gates}"
+  | .error e => errStr e
+
 def dispatch (cmd : String) (a : Args) : Option String :=
   match cmd with
   | "graph.lc" => some (cmdLc a)
@@ -329,6 +342,8 @@ def dispatch (cmd : String) (a : Args) : Option String :=
   | "lc.find" => some (cmdFind a)
   | "lc.check" => some (cmdCheck a)
   | "lc.converter" => some (cmdConverter a)
+  | "lc.checkstates" => some (cmdCheckStates a)
+  | "lc.checkstategraph" => some (cmdCheckStateGraph a)
   | "lc.apply" => some (cmdApply a)
   | _ => none
 
